@@ -49,6 +49,29 @@ def spec_view(spec):
     return v
 
 
+def pseudo_translation_spec(rng, spec):
+    """same lattice, decoration with a PSEUDO translation: every species has two atoms, the first species (and possibly
+    others) is invariant under a half lattice vector h, at least one species is not -- so h must be rejected by reduce()"""
+    d = spec.dim
+    h = [Fr(0)] * d; h[rng.randrange(d)] = Fr(1, 2)
+    if rng.random() < 0.5: h[rng.randrange(d)] = Fr(1, 2)
+    grid = [Fr(0), Fr(1, 4), Fr(1, 3), Fr(1, 8), Fr(2, 5), Fr(1, 6)]
+    basis, used = [], set()
+    nchem = rng.randint(2, 3)
+    for c in range(nchem):
+        for _try in range(50):
+            u = tuple(rng.choice(grid) for _ in range(d))
+            if c < nchem - 1:
+                v = tuple(latt.mod1(a + b) for a, b in zip(u, h))
+            else:                       # the symmetry breaker: second atom NOT displaced by h
+                v = tuple(latt.mod1(a + rng.choice([Fr(1, 3), Fr(1, 5), Fr(1, 4)]) * (1 if k == 0 else rng.choice([0, 1]))) for k, a in enumerate(u))
+                if v == tuple(latt.mod1(a + b) for a, b in zip(u, h)): continue
+            if u == v or u in used or v in used: continue
+            used.update([u, v]); basis.append([u, v]); break
+    if len(basis) < 2: return spec
+    return latt.Spec(spec.label + "+pseudo", spec.A, spec.g, basis, None, spec.Aq)
+
+
 def random_supercell_matrix(rng, d, negative=False):
     while True:
         N = [[rng.randint(-2, 3) for _ in range(d)] for _ in range(d)]
@@ -114,6 +137,8 @@ def run(ck):
         tries += 1
         dim = 2 if rng.random() < 0.35 else 3
         spec = latt.random_spec(rng, dim=dim, maxatoms=4, nchem_max=3, spin_mode=rng.choice(["none", "none", "scalar"]))
+        if rng.random() < 0.2:
+            spec = pseudo_translation_spec(rng, spec)
         if latt.pure_translations(spec_view(spec)):
             stats["rejected-nonprimitive"] += 1; continue
         neg = rng.random() < 0.1
@@ -126,7 +151,11 @@ def run(ck):
         ck.case(key=(spec.describe(), N, [[[round(float(x), 6) for x in u] for u in ul] for ul in basis]), nontrivial=True,
                 kind="%dD-det%d-%s-%s" % (dim, det, "noise" if noise else "exact", "spins" if spins else "nospin"),
                 sample={"primitive": spec.label, "atoms": spec.natoms(), "supercell_matrix": N, "det": det, "noise": noise} if len(ck.samples) < 6 else None)
-        prim = latt.build(spec)      # the implementation on the primitive description
+        try:
+            prim = latt.build(spec)      # the implementation on the primitive description
+        except Exception as e:
+            stats["exceptions"] += 1
+            report("Crystal(primitive description) raised %s: %s" % (type(e).__name__, e), replay, "c19-primitive-exception"); continue
         cprim = [len(ul) for ul in spec.basis]
         if [len(ul) for ul in prim.basis] != cprim:
             report("primitive description itself was changed by reduction", replay, "c19-primitive-changed"); continue
